@@ -53,8 +53,11 @@ def pitch_compare_summaries():
     for k, fn in ops.items():
         def f(it, args, kwargs, node, fn=fn):
             a, b = args
-            if not isinstance(b, AObj):
+            if b is None:
                 return k_default(fn)
+            if not isinstance(b, AObj):
+                # the stubs carry only a pitch: what Note.__eq__ does with a text is for the real code to say
+                raise CannotDecide("stub note compared with %r" % (b,))
             return fn(a.attrs["pitch"], b.attrs["pitch"])
         out[NOTE + ".Note." + k] = f
     return out
@@ -383,6 +386,28 @@ def rule_remove(ctx, ci):
             ok = got == want
         ctx.check(ok, R, "remove_notes[%s]" % label, frs.where(), "remove_notes(<%s>)" % label,
                   "leaves %s, the set model predicts %s%s" % (got, want, " (the operand is walked while it shrinks)" if label == "itself" else ""))
+    # removal by the text forms add_note accepts, on real notes (no comparison summaries): a bare name, a name carrying its octave
+    noteci = repo.mod(NOTE).cls("Note")
+    real = [("C", 4), ("E", 4), ("G", 4), ("C", 5), ("Eb", 5)]
+
+    def real_notes():
+        return [AObj(noteci, {"name": n, "octave": o, "velocity": 64, "channel": 1}, name="%s-%d" % (n, o)) for n, o in real]
+    for fn_name, operand, want in (("remove_note", "C-4", [x for x in real if x != ("C", 4)]), ("remove_note", "C", [x for x in real if x[0] != "C"]),
+                                   ("remove_note", "Eb-5", real[:4]), ("remove_note", "D-4", real), ("remove_note", "C-6", real),
+                                   ("remove_notes", "C-5", [x for x in real if x != ("C", 5)]), ("remove_notes", ["C-4", "E-4"], real[2:]),
+                                   ("__sub__", "C-4", [x for x in real if x != ("C", 4)])):
+        fx = repo.find_method(ci, fn_name)
+        try:
+            paths = run_method(repo, fx, lambda operand=operand: [AObj(ci, {"notes": real_notes()}, name="c"), list(operand) if isinstance(operand, list) else operand])
+        except CannotDecide as e:
+            raise AnalysisError("%s(%r): %s" % (fn_name, operand, e))
+        ok = len(paths) == 1 and paths[0].kind == "return"
+        got = [(p.kind, short(repr(p.value), 60)) for p in paths]
+        if ok:
+            got = [(x.attrs["name"], x.attrs["octave"]) for x in paths[0].interp.args[0].attrs["notes"]]
+            ok = got == want
+        ctx.check(ok, R, "%s[text %r]" % (fn_name, operand), fx.where(), "%s(%r) on %s" % (fn_name, operand, ["%s-%d" % x for x in real]),
+                  "leaves %s, the set model predicts %s" % (got, want))
     fd = repo.find_method(ci, "remove_duplicate_notes")
 
     def mk3():
@@ -544,6 +569,25 @@ def rule_protocol(ctx, ci):
         paths = run_method(repo, f, lambda: [AObj(ci, {"notes": ns()}, name="c"), note_stub(repo, "q", pitch=pitch)], summaries=pc)
         ctx.check(len(paths) == 1 and paths[0].value is want, R, "__contains__[%s]" % want, f.where(), "note in container",
                   "membership of an equal-pitch note gives %s, expected %s" % ([(p.kind, p.value) for p in paths], want))
+    noteci = repo.mod(NOTE).cls("Note")
+    real = [("C", 4), ("E", 4), ("C", 5), ("Eb", 5)]
+    for held in (real, []):
+        for q in ("C", "D", "Eb", "E", "C-4", "C-5", "C-6", "D-4", AObj(noteci, {"name": "E", "octave": 4, "velocity": 64, "channel": 1}, name="q"),
+                  AObj(noteci, {"name": "F", "octave": 4, "velocity": 64, "channel": 1}, name="q")):
+            if isinstance(q, AObj):
+                want = (q.attrs["name"], q.attrs["octave"]) in held
+            elif "-" in q:
+                want = (q.split("-")[0], int(q.split("-")[1])) in held
+            else:
+                want = q in [n for n, o in held]
+            try:
+                paths = run_method(repo, f, lambda: [AObj(ci, {"notes": [AObj(noteci, {"name": n, "octave": o, "velocity": 64, "channel": 1}, name="%s-%d" % (n, o)) for n, o in held]}, name="c"), q])
+            except CannotDecide as e:
+                raise AnalysisError("%r in container: %s" % (q, e))
+            ql = q if isinstance(q, str) else "Note %s-%d" % (q.attrs["name"], q.attrs["octave"])
+            ctx.check(len(paths) == 1 and paths[0].kind == "return" and paths[0].value is want, R, "__contains__[%s in %d notes]" % (ql, len(held)), f.where(),
+                      "%r in container of %s" % (ql, ["%s-%d" % x for x in held]),
+                      "membership gives %s, the content says %s" % ([(p.kind, short(repr(p.value), 60)) for p in paths], want))
     f = repo.find_method(ci, "__eq__")
     for other_pitches, want in (([3, 2, 1], True), ([1, 2], False), ([1, 2, 4], False)):
         def mk():
